@@ -200,15 +200,15 @@ func (b *book) startRequest(s, m int, call func(ctx context.Context) (*mcp.ListR
 	before := nFrames()
 	ctx, cancel := context.WithCancel(base)
 	w := &waiter{tag: m, to: s, cancel: cancel, done: make(chan string, 1)}
-	go func() { w.done <- rootsPayload(call(ctx)) }()
+	go func() {
+		res, err := call(ctx)
+		w.done <- rootsPayload(res, err, "")
+	}()
 	deadline := time.Now().Add(ceiling)
 	for {
 		select {
 		case r := <-w.done:
 			cancel()
-			if strings.HasPrefix(r, "failed to send roots/list request") {
-				return "err:other:" + r
-			}
 			return r
 		default:
 		}
@@ -225,10 +225,6 @@ func (b *book) startRequest(s, m int, call func(ctx context.Context) (*mcp.ListR
 		}
 		time.Sleep(200 * time.Microsecond)
 	}
-}
-
-func rootsPayloadKind(kind string) func(*mcp.ListRootsResult, error) string {
-	return func(r *mcp.ListRootsResult, err error) string { return rootsPayload(r, err, kind) }
 }
 
 func (b *streamableBE) allStreams(s int) []*hk.Stream {
@@ -255,8 +251,6 @@ func (b *streamableBE) census() (map[string]map[string][]int, int) {
 	// quiescence: a sentinel notification on every open stream; everything written earlier on that stream precedes it
 	for s, st := range b.streams {
 		if err := b.f.S.SendNotification(b.sid(s), "notifications/message", tagParams(-1)); err == nil {
-			_, base := b.framesOf(s)
-			_ = base
 			waitUntil(func() bool { _, n := classifyFrames(datasOf(st)); return n >= 1 })
 		}
 	}
@@ -304,11 +298,6 @@ func (b *streamableBE) close() {
 	}
 	b.f.Close()
 }
-
-func (b *streamableBE) rootsKind() string { return "" }
-
-// rootsPayload adapter used by startRequest
-func rootsPayloadDefault(r *mcp.ListRootsResult, err error) string { return rootsPayload(r, err, "") }
 
 // ================================================================ legacy SSE
 
@@ -575,8 +564,6 @@ func (b *stdioBE) exec(o op) string {
 			return "posted:404"
 		}
 		b.poster[*o.Payload] = 0
-		before := mcp.VerifPendingServerRequests(b.srv)
-		_ = before
 		b.in.Write([]byte(answerBody(rawID(o.ID), *o.Payload) + "\n"))
 		// the line is handled in its own goroutine: a marker request that is answered after it would not prove anything, so
 		// wait until the answer was either put into its waiter's channel or cannot be (no entry / entry already full)
@@ -588,7 +575,7 @@ func (b *stdioBE) exec(o op) string {
 	return "err:unsupported"
 }
 
-// awaitDispatch waits (ceiling 300 ms of quiet) until the posted line had its effect on the addressed pending entry: the
+// awaitDispatch waits until the posted line had its effect on the addressed pending entry: the
 // stdio server handles every input line in a goroutine of its own and offers no completion signal, so the observable effect
 // (the waiter's channel becoming non-empty) is awaited when it is possible at all.
 func (b *stdioBE) awaitDispatch(o op) {
@@ -598,14 +585,11 @@ func (b *stdioBE) awaitDispatch(o op) {
 	}
 	v, isInt := m["int"].(int64)
 	if !isInt {
-		// a string id is refused by parseRequestID: nothing observable will ever happen; give the goroutine time to run
-		time.Sleep(20 * time.Millisecond)
-		return
+		return // a string id is refused by parseRequestID: the line has no effect whenever it is handled
 	}
 	exists, filled := mcp.VerifPendingSlot(b.srv, v)
 	if !exists || filled {
-		time.Sleep(20 * time.Millisecond) // nothing can change for this id
-		return
+		return // no entry under this id, or its channel is full already: the line has no effect whenever it is handled
 	}
 	waitUntil(func() bool { e, f := mcp.VerifPendingSlot(b.srv, v); return !e || f })
 }
